@@ -77,6 +77,31 @@ def work_diff(chunk):
             # the absence-free run does not complete (resource deadlock): the differential makes no claim
             col.extra["differential-skipped-model-does-not-complete"] += 1
             continue
+        # an absence-free result read (JSON) into a project object that has run with absence steps before: deleting "the absence steps" must change nothing
+        import os
+        import tempfile
+
+        for absence in ((1,), (0, 2)):
+            fd, path = tempfile.mkstemp(prefix="verif-c10-", suffix=".json")
+            os.close(fd)
+            try:
+                m0.project.write_simple_json(path)
+                mu = runner.prepare(spec, opts)
+                mu.project.simulate(**runner.sim_kwargs(dict(opts, absence=list(absence))))
+                mu.project.read_simple_json(path)
+                mu.project.remove_absence_time_list()
+                a, b = logs_only(S.adopt(mu.project)), logs_only(m0)
+                col.evaluations += 2
+                col.checks["c10.differential-after-load"] += 1
+                col.transitions.add(hash((key, absence, "load")))
+                d = diff_paths(a, b)
+                if d:
+                    col.violation({"property": "C10", "sig": "C10:remove_absence_time_list-changed-an-absence-free-result-read-into-a-used-project:" + str(d[0][0]), "kind": "diff-load", "spec": spec, "opts": opts,
+                                   "absence": list(absence), "detail": {"first_difference(path, after-remove, absence-free)": d}})
+            except Exception as e:
+                col.violation({"property": "C10", "sig": "C10:differential-raised:%s" % type(e).__name__, "kind": "diff-load", "spec": spec, "opts": opts, "absence": list(absence), "detail": repr(e)})
+            finally:
+                os.unlink(path)
         idx = list(range(0, mk + 2)) + list(extra_idx)
         for k in range(1, maxlen + 1):
             for absence in itertools.combinations(idx, k):
@@ -139,6 +164,14 @@ def mon_items(tier):
                         out.append((sp, {"rule": rule, "auto_abs": aa, "max_time": F.seq_bound(sp) + 10}))
     for sp in F.fac_specs(tier):
         out.append((sp, {"rule": "TSLACK", "max_time": F.seq_bound(sp) + 10}))
+    # tasks that name their workers (the named worker may be away on the day the task becomes READY)
+    for fl in list(F.flows(3, ("FS", "SS"), (1, 2)))[:: (3 if tier == "quick" else 1)]:
+        for fx in (["W1"], ["W0", "W1"]):
+            sp = F.with_teams(fl, "POOL2")
+            sp = dict(sp, tasks=[dict(t) for t in sp["tasks"]])
+            sp["tasks"][1]["fixw"] = fx
+            sp["tasks"][2]["fixw"] = ["W1"]
+            out.append((sp, {"rule": "TSLACK", "max_time": F.seq_bound(sp) * 2 + 10}))
     for sp in F.auto_component_specs():
         for aa in (False, True):
             out.append((sp, {"rule": "TSLACK", "auto_abs": aa, "max_time": F.seq_bound(sp) + 12}))
@@ -227,6 +260,9 @@ def run(tier, seed):
 
 
 def replay(v):
+    if v.get("kind") == "diff-load":
+        col = work_diff([(v["spec"], v["opts"], 0, ())])
+        return [x for x in col.violations if x.get("kind") == "diff-load" and x.get("absence") == v.get("absence")]
     if v.get("kind") == "diff":
         m1, m2, t_with = differential(v["spec"], v["opts"], v["absence"], pause=v.get("pause"))
         d = diff_paths(logs_only(m1), logs_only(m2))
